@@ -295,6 +295,64 @@ def gen_h2_from_graph(tier: str, rng) -> Iterator[Dict[str, Any]]:
                 yield sc
 
 
+# ------------------------------------------------------------------------------------------
+# H2Up (receive side): words over ClientSend / AppRecv / AppAnswer from the complete graph of a two-stream
+# instance with the code's own deviation (a put on the queue of an application that has answered blocks).
+# One unit = one DATA frame of 16 383 bytes: four of them are the server's 65 535-byte windows.
+
+H2UP_SERVER = {"Read", "ReaderPut", "ReaderReleased", "Flush"}
+UP_UNIT = 16383
+
+
+def _h2up_graph_cfg() -> str:
+    return ("SPECIFICATION Spec\nCONSTANTS\n  Streams <- TwoStreams\n  Upload = 3\n  ConnWin = 4\n  StreamWin = 4\n"
+            "  QCap = 1\n  MaxPad = 0\n  Dev <- CodeDev\nCHECK_DEADLOCK FALSE\n")
+
+
+def h2up_script_from_word(word: List[str], fam: str) -> Optional[Dict[str, Any]]:
+    sids = [1, 3]
+    rid_of = {"1": "1", "3": "2"}
+    steps: List[Dict[str, Any]] = []
+    for sid in sids:
+        steps.append(build.h2_headers(int(rid_of[str(sid)]), sid, "POST", toks=[["/u%d" % sid, "/u%d" % sid]], end=False,
+                                      total=10 * UP_UNIT))
+    steps.append({"s": "dt", "d": 0.01})
+    sent: Dict[str, int] = {}
+    answered = set()
+    for label in word:
+        m = _LABEL.match(label)
+        name, args = m.group(1), ([x.strip() for x in m.group(2).split(",")] if m.group(2) else [])
+        if name == "ClientSend":
+            rid = rid_of[args[0]]
+            off = sent.get(rid, 0)
+            steps.append({"s": "h2", "op": "data", "stream": int(args[0]), "pat": [120 + int(rid), off, UP_UNIT], "end": False})
+            sent[rid] = off + UP_UNIT
+        elif name == "AppRecv":
+            steps.append({"s": "op", "app": rid_of[args[0]], "op": ["recv"]})
+        elif name == "AppAnswer":
+            rid = rid_of[args[0]]
+            answered.add(rid)
+            steps.append({"s": "op", "app": rid, "op": ["send", {"type": "http.response.start", "status": 200, "headers": []}]})
+            steps.append({"s": "op", "app": rid, "op": ["send", {"type": "http.response.body", "pat": [130 + int(rid), 0, 2], "more": False}]})
+        else:
+            return None
+    steps.append({"s": "dt", "d": 0.05})
+    return {"carrier": "h2", "cfg": {"max_app_queue_size": 1}, "apps": {"*": [["remote"]]}, "steps": steps, "fam": fam,
+            "bodies": {rid: [120 + int(rid), 10 * UP_UNIT] for rid in ("1", "2")}}
+
+
+def gen_h2up_from_graph(tier: str, rng) -> Iterator[Dict[str, Any]]:
+    from . import graph_tests
+
+    words = graph_tests.cached_words("MC_H2Up", _h2up_graph_cfg(), H2UP_SERVER)[0][1]
+    if tier == "quick" and len(words) > 150:
+        words = rng.sample(words, 150)
+    for w in words:
+        sc = h2up_script_from_word(w, "tlc/H2Up/graph")
+        if sc is not None:
+            yield sc
+
+
 H1_SERVER = {"ReadData", "NextEvent", "ReaderPut", "ReaderReleased", "ReaderResume", "ReaderClosing", "MicroStep",
              "IdleFire", "IdleEnd", "HandlerExit", "TransportDeath"}
 
